@@ -35,8 +35,14 @@ def cmd_check(args):
     seed = int(os.environ.get("VERIF_SEED", "0") or 0)
     t_start = time.time()
     kf = findings.load()
-    hs = [h for h in registry.HARNESSES if pid in h.props and tier_ok(h.tier, tier)]
-    qs = [q for q in registry.MIR_QUERIES if pid in q.props and tier_ok(q.tier, tier)]
+    # quick tier: a harness runs for its PRIMARY property (props[0]) and for the properties that
+    # explicitly pick it (quick_also); every other property it serves runs it in the thorough tier
+    def sel(x):
+        if pid not in x.props or not tier_ok(x.tier, tier):
+            return False
+        return tier == "thorough" or x.props[0] == pid or pid in getattr(x, "quick_also", ())
+    hs = [h for h in registry.HARNESSES if sel(h)]
+    qs = [q for q in registry.MIR_QUERIES if sel(q)]
     if args.only:
         hs = [h for h in hs if args.only in h.name]
         qs = [q for q in qs if args.only in q.name]
